@@ -25,7 +25,7 @@ from ..runner import Collector, Violation
 PROPERTY_ID = "C15"
 LEVEL = "exploration"
 RULE = (
-    "case = (text-bearing position, payload). The position x payload matrix (33 positions x 50 payloads mid-text, plus 18 edge-sensitive payloads x 5 other placements: alone / at the start / at the end / on a line of its own / inside a long wrapped text; thorough: all payloads x all placements) is enumerated completely; "
+    "case = (text-bearing position, payload). The position x payload matrix (33 positions x 50 payloads mid-text, plus 24 edge-sensitive payloads x 5 other placements: alone / at the start / at the end / on a line of its own / inside a long wrapped text; thorough: all payloads x all placements) is enumerated completely; "
     "Hypothesis text() payloads are added on top. Non-trivial = the payload reaches generated text (it, or an escaped spelling of "
     "it, occurs in some emitted file). Matrix cases are distinct by construction."
 )
@@ -46,7 +46,7 @@ PAYLOADS = [
 # payloads whose effect depends on what is next to them (closing quotes, start of a line, end of the text): also placed
 # alone / at the start / at the end / on a line of their own
 EDGE_PAYLOADS = ['"', "'", "\\", '"""', "\r", "#", "{x}", "async def injected(self) -> None:", "@overload", "def f():", "class X:", "    x = 1", "\x00",
-                 " ", "\n", "\t", "\u2028", "\xa0"]
+                 " ", "\n", "\t", "\u2028", "\xa0", '" ', '"\n', "\\ ", "\\\n", '""" ', "' "]
 PLACES = {
     "mid": lambda p: "ab" + p + "cd",
     "whole": lambda p: p,
